@@ -1,5 +1,5 @@
 (** C09 — In-memory filespace stays consistent under concurrent use.
-    Statements only; every proof is [exact <lemma of Proofs/MemConc.v>].
+    Statements only; every proof is [exact <lemma of Proofs/MemConc.v, MemLive.v or C09More.v>].
 
     The model (Model/MemConc.v) is an interleaving model: shared heap of directory and file
     objects, any number of threads, each with any program of WriteFile / Writer session /
@@ -15,7 +15,7 @@
     visibly non-atomic (mkdir -p): [C09_mkdir_p_not_atomic] is a schedule of the CURRENT code
     whose outcome equals neither sequential order (the remover removes the directory that the
     racing MkdirAll has just created, the MkdirAll starts again from the root). *)
-From GC Require Import Common.Base Model.Paths Model.Fs Model.MemConc Proofs.Fs Proofs.MemConc Proofs.MemLive.
+From GC Require Import Common.Base Model.Paths Model.Fs Model.MemConc Proofs.Fs Proofs.MemConc Proofs.MemLive Proofs.C09More.
 Open Scope N_scope.
 
 (** In every reachable state (any threads, any programs with good path names, any schedule,
@@ -169,7 +169,7 @@ Print Assumptions C09_no_panic.
     (lock holder is always at an enabled program counter) is not proved HERE; it is proved
     further down: C09_no_deadlock, C09_lock_holder_progress and C09_can_finish cover all programs
     and supersede this theorem, which is kept as it was stated.  Termination of the retry loops
-    under every fair schedule is not claimed. *)
+    under every fair schedule: [C09_fair_terminates] at the end of this file. *)
 Theorem C09_no_stuck_partial : forall sc sched,
   In sc f28_scenarios -> (forall t, step cur t (run cur sched (sc_init sc)) = None) ->
   final (run cur sched (sc_init sc)) = true.
@@ -217,8 +217,9 @@ Print Assumptions C09_lock_holder_progress.
     the current call including ONE restart from the root when the directory it stands on has
     been removed - after the restart it walks from the root through linked directories, and
     linked directories are never removed in a forest - plus a bound for the calls still to come).
-    Termination under EVERY fair schedule is not claimed: a creator can be overtaken by
-    removers again and again. *)
+    Termination under EVERY fair schedule was not claimed here (a creator can be overtaken by
+    removers again and again - but only as often as there are removals left, programs being
+    finite): it is [C09_fair_terminates] at the end of this file, which supersedes this theorem. *)
 Theorem C09_can_finish : forall s0 progs sched,
   good_shared s0 = true -> tree_shared s0 = true ->
   exists sched', final (run cur (sched ++ sched') (boot s0 progs)) = true.
@@ -310,3 +311,221 @@ Example C09_ex_blocked :
   map (fun t => match step cur t st with None => false | Some _ => true end) (seq 0 4) = [true; false; false; false] /\
   final st = false /\ final (run cur [0;0;0;2;3;3;1]%nat st) = true.
 Proof. vm_compute. repeat split; reflexivity. Qed.
+
+(** * Added by the proof audit (Proofs/C09More.v)
+
+    Clause "every successful operation takes effect and is visible afterwards", for ALL thread
+    counts, ALL programs without Remove/RemoveAll ([norem]), ALL flavours, ALL schedules, ANY
+    initial heap.  Supersedes the part marked Missing in [C09_distinct_paths_partial]. *)
+
+(** The step in which WriteFile (or the Close of a Writer session) returns nil leaves the path
+    resolving to a file object that holds exactly the written value ([concat] of the chunks for
+    a session), with no handle open on it. *)
+Theorem C09_write_takes_effect : forall ar s0 progs sched t st' o p v,
+  norem progs = true ->
+  let st := run ar sched (boot s0 progs) in
+  step ar t st = Some st' -> results_of st' t = results_of st t ++ [(o, QOk)] ->
+  (o = CWrite p v \/ exists c, o = CWriter p c /\ v = concat c) ->
+  exists f fo, walk_root (sh st') p = Some (RFile f) /\ nth_error (files (sh st')) f = Some fo /\
+               f_data fo = v /\ f_holder fo = None.
+Proof. exact write_takes_effect. Qed.
+Print Assumptions C09_write_takes_effect.
+
+(** Every creating call (WriteFile, Writer, MkdirAll, Copy*; [target] = the path it creates)
+    that is recorded with a non-error result: in the state where it is recorded and in EVERY
+    continuation the path resolves, to a file for WriteFile/Writer and to a directory for
+    MkdirAll ([kind_ok]); by [C09_distinct_paths_partial] it is the same object from then on. *)
+Theorem C09_ok_visible : forall ar s0 progs sched1 sched2 t o r p,
+  norem progs = true ->
+  In (o, r) (results_of (run ar sched1 (boot s0 progs)) t) -> res_ok r = true -> target o = Some p ->
+  exists ref, walk_root (sh (run ar (sched1 ++ sched2) (boot s0 progs))) p = Some ref /\ kind_ok ref o.
+Proof. exact ok_visible. Qed.
+Print Assumptions C09_ok_visible.
+
+(** No spurious refusal: a WriteFile/Writer/MkdirAll that returned an error is explained by a
+    node that is visible in the state then and ever after ([refused]): MkdirAll p - a FILE is
+    bound at a prefix of p; WriteFile/Writer p - p is the root, or a file is bound at a proper
+    prefix of p, or some node is bound at p itself (a directory, or a node that another creator
+    inserted between this caller's lookup and its insertion: MkdirAll and Copy* insert without the
+    directory's outer lock - see [C09_creators_serialisable_refuted]). *)
+Theorem C09_refusal_explained : forall ar s0 progs sched1 sched2 t o,
+  norem progs = true ->
+  In (o, QErr) (results_of (run ar sched1 (boot s0 progs)) t) ->
+  refused (sh (run ar (sched1 ++ sched2) (boot s0 progs))) o.
+Proof. exact refusal_explained. Qed.
+Print Assumptions C09_refusal_explained.
+
+(** ... and that last case is a refusal which NO sequential order explains (the statement
+    "the results and the tree of two racing creators of one new name equal those of one of the two
+    orders", true of the F28 family, is false here): WriteFile a/x against Copy s -> a/x, schedule
+    writer: start, walk, lock L + lookup (absent) | copier: whole call | writer: insert.  Copy
+    returns nil, WriteFile an error, a/x holds the copy.  The implementation does the same
+    (notes/C09-audit/FINDING-1: 63 refusals in 20000 rounds of the throw-away test on /repo);
+    the property text promises one node and says nothing about the loser, so this is recorded,
+    not repaired. *)
+Theorem C09_creators_serialisable_refuted :
+  let st := run cur sched_wvc st_wvc in
+  final st = true /\
+  results_of st 0 = [(CCopy CAny [nS] [nA; nX], QOk)] /\
+  results_of st 1 = [(CWrite [nA; nX] [3], QErr)] /\
+  lookup (abs (sh st)) [nA; nX] = Some (F [7]) /\
+  two_explained (abs (sh st_wvc)) (CCopy CAny [nS] [nA; nX]) (CWrite [nA; nX] [3]) st = false.
+Proof. exact write_vs_copy_refuted. Qed.
+Print Assumptions C09_creators_serialisable_refuted.
+
+(** Clause "two concurrent creations of the same new node yield one node", general part for
+    arbitrary programs (supersedes the instance part of [C09_create_once_partial] for runs
+    without removals): whenever two creating calls of one path p (any threads, any kinds, any
+    time) both returned non-error results, p is bound to ONE object, the same at both moments,
+    and it has the kind both calls promise - so a successful MkdirAll p and a successful
+    WriteFile p exclude each other.  With [C09_refusal_explained]: concurrent MkdirAll of one
+    new path all return nil unless a file is in the way. *)
+Theorem C09_create_once : forall ar s0 progs sched1 sched2 t1 o1 r1 t2 o2 r2 p,
+  norem progs = true ->
+  let st1 := run ar sched1 (boot s0 progs) in
+  let st2 := run ar (sched1 ++ sched2) (boot s0 progs) in
+  In (o1, r1) (results_of st1 t1) -> res_ok r1 = true -> target o1 = Some p ->
+  In (o2, r2) (results_of st2 t2) -> res_ok r2 = true -> target o2 = Some p ->
+  exists ref, walk_root (sh st1) p = Some ref /\ walk_root (sh st2) p = Some ref /\
+              kind_ok ref o1 /\ kind_ok ref o2.
+Proof. exact create_once_general. Qed.
+Print Assumptions C09_create_once.
+
+(** Clause "no call blocks for ever", ALL programs (removers included), current flavour,
+    tree-shaped initial heap.  Programs are finite, so creators can be sent back to the root
+    only as often as there are Remove/RemoveAll calls left.  [Mtot] = sum over the threads of the
+    steps they need with at most one more restart + (removals still to come) * (what one removal
+    can add).  EVERY enabled step of EVERY thread in EVERY reachable state decreases it, and it
+    never exceeds [step_bound progs] = (cost of all calls) * (1 + number of Remove/RemoveAll
+    calls): no schedule contains more than that many effective steps (no livelock). *)
+Theorem C09_every_step_decreases : forall s0 progs sched t st',
+  good_shared s0 = true -> tree_shared s0 = true ->
+  let st := run cur sched (boot s0 progs) in
+  step cur t st = Some st' -> (Mtot st' < Mtot st)%nat /\ (Mtot st <= step_bound progs)%nat.
+Proof. exact every_step_decreases. Qed.
+Print Assumptions C09_every_step_decreases.
+
+(** Termination under EVERY fair schedule (supersedes the weak termination [C09_can_finish] and
+    the remark that fair termination is not claimed): cut the schedule into rounds, each naming
+    every thread at least once - every schedule in which each thread occurs infinitely often can
+    be cut like that, to any number of rounds; the order inside a round and any extra picks are
+    arbitrary.  After more than [step_bound progs] rounds every thread has finished all its
+    calls, whatever the removers did. *)
+Theorem C09_fair_terminates : forall s0 progs rounds,
+  good_shared s0 = true -> tree_shared s0 = true ->
+  (forall r, In r rounds -> covers (length progs) r) ->
+  (step_bound progs < length rounds)%nat ->
+  final (run cur (concat rounds) (boot s0 progs)) = true.
+Proof. exact fair_terminates. Qed.
+Print Assumptions C09_fair_terminates.
+
+(** Non-vacuity of the new implications. *)
+Definition ex_st0 : state :=
+  boot (setup [CMkdir [nD]; CWrite [nS] [7]])
+       [[CWrite [nD; nX] [5;6]]; [CWriter [nD; nY] [[1];[2]]]; [CWrite [nS; nX] [1]; CMkdir [nS]]].
+
+(** the fourth step of thread 0 returns nil for WriteFile d/x, the seventh of thread 1 for the
+    Writer session on d/y: premises of [C09_write_takes_effect] (and its conclusion, recomputed) *)
+Example C09_ex_takes_effect :
+  norem [[CWrite [nD; nX] [5;6]]; [CWriter [nD; nY] [[1];[2]]]; [CWrite [nS; nX] [1]; CMkdir [nS]]] = true /\
+  (let st := run cur [0;0;0]%nat ex_st0 in
+   exists st', step cur 0 st = Some st' /\
+     results_of st' 0 = results_of st 0 ++ [(CWrite [nD; nX] [5;6], QOk)] /\
+     lookup (abs (sh st')) [nD; nX] = Some (F [5;6])) /\
+  (let st := run cur [1;0;1;1;0;1;1;1]%nat ex_st0 in
+   exists st', step cur 1 st = Some st' /\
+     results_of st' 1 = results_of st 1 ++ [(CWriter [nD; nY] [[1];[2]], QOk)] /\
+     lookup (abs (sh st')) [nD; nY] = Some (F [1;2])).
+Proof.
+  split; [reflexivity|]. split.
+  - eexists. split; [vm_compute; reflexivity|]. vm_compute. split; reflexivity.
+  - eexists. split; [vm_compute; reflexivity|]. vm_compute. split; reflexivity.
+Qed.
+
+(** premises of [C09_ok_visible] / [C09_refusal_explained] / [C09_create_once]: results of all three
+    kinds occur (WriteFile below a file and MkdirAll onto a file are refused) *)
+Example C09_ex_results :
+  let st := run cur (repeat 2%nat 7 ++ repeat 0%nat 4 ++ repeat 1%nat 7) ex_st0 in
+  final st = true /\
+  results_of st 0 = [(CWrite [nD; nX] [5;6], QOk)] /\
+  results_of st 1 = [(CWriter [nD; nY] [[1];[2]], QOk)] /\
+  results_of st 2 = [(CWrite [nS; nX] [1], QErr); (CMkdir [nS], QErr)].
+Proof. vm_compute. repeat split; reflexivity. Qed.
+
+(** two WriteFile and one MkdirAll-then-list on one new path, interleaved: both writers return nil
+    (premises of [C09_create_once] with t1 <> t2) *)
+Example C09_ex_create_once :
+  let st := run cur [0;1;0;1;0;1;0;1;0;1;0;1;0;1;0;1]%nat
+                (boot empty_shared [[CWrite [nA; nX] [1]]; [CWrite [nA; nX] [2]]]) in
+  final st = true /\ results_of st 0 = [(CWrite [nA; nX] [1], QOk)] /\
+  results_of st 1 = [(CWrite [nA; nX] [2], QOk)] /\
+  target (CWrite [nA; nX] [1]) = Some [nA; nX] /\ target (CWrite [nA; nX] [2]) = Some [nA; nX].
+Proof. vm_compute. repeat split; reflexivity. Qed.
+
+(** a fair schedule against removers: 3 threads (two removals, a writer and a MkdirAll into the
+    removed directory), bound 93, rounds [2;1;0]: the measure of the successive rounds, and the
+    premises of [C09_fair_terminates] *)
+Definition ex_progs : list (list cop) :=
+  [[CRemove [nD] true; CRemove [nD] false]; [CWrite [nD; nX] [5;6]]; [CMkdir [nD; nE]; CList [nD]]].
+Example C09_ex_fair :
+  step_bound ex_progs = 93%nat /\
+  good_shared (setup [CMkdir [nD]]) = true /\ tree_shared (setup [CMkdir [nD]]) = true /\
+  covers (length ex_progs) [2;1;0]%nat /\
+  map (fun k => Mtot (run cur (concat (repeat [2;1;0]%nat k)) (boot (setup [CMkdir [nD]]) ex_progs))) (seq 0 12)
+  = [93; 72; 54; 44; 17; 15; 11; 9; 5; 3; 1; 0]%nat /\
+  final (run cur (concat (repeat [2;1;0]%nat 11)) (boot (setup [CMkdir [nD]]) ex_progs)) = true.
+Proof.
+  split; [vm_compute; reflexivity|]. split; [vm_compute; reflexivity|]. split; [vm_compute; reflexivity|].
+  split; [intros t Ht; simpl in Ht; simpl; lia|]. split; vm_compute; reflexivity.
+Qed.
+
+(** Clause "a file always holds exactly one of the values written to IT; readers only ever see
+    complete written values" - per PATH (C09_values only says: some value written somewhere).
+    ALL thread counts, ALL programs without Remove/RemoveAll and without Copy* ([plain]), ALL
+    flavours, ALL schedules; initial heap: any [good_shared] heap in which no object has two
+    paths ([INJ]; the empty filespace, and - first conjunct - every state such programs reach).
+    [pv ar s0 ops q v]: v is the initial content of q in s0, or the argument of a WriteFile q in
+    the programs, or the WHOLE concatenation of a Writer session on q (or, only in the flavours
+    before 288e3e2, the empty value while a Writer session on q exists).
+    In every reachable state an unlocked file bound at q holds a value of q, and every
+    ReadFile q / Reader session on q returned a value of q: never a value written to another
+    path, never a prefix.  Copy* is excluded because the destination of a copy legitimately
+    holds values written to the source (C09_values covers those runs with the pooled values);
+    removals are excluded because a path can then be bound to different file objects in turn. *)
+Theorem C09_values_by_path : forall ar s0 progs sched,
+  good_shared s0 = true -> INJ s0 -> plain progs = true ->
+  let st := run ar sched (boot s0 progs) in
+  INJ (sh st) /\
+  (forall q f fo, walk_root (sh st) q = Some (RFile f) -> nth_error (files (sh st)) f = Some fo ->
+                  f_holder fo = None -> pv ar s0 (concat progs) q (f_data fo)) /\
+  (forall t q v, In (CRead q, QData v) (results_of st t) \/ In (CReader q, QData v) (results_of st t) ->
+                 pv ar s0 (concat progs) q v).
+Proof. exact file_values_by_path. Qed.
+Print Assumptions C09_values_by_path.
+
+(** Distinct paths: q absent initially, and the only calls that create q are WriteFile q v:
+    whenever q is bound to an unlocked file it holds v (with [C09_ok_visible]: from the return of
+    the first such call on, in every state). *)
+Theorem C09_distinct_path_value : forall ar s0 progs sched q v f fo,
+  good_shared s0 = true -> INJ s0 -> plain progs = true ->
+  walk_root s0 q = None ->
+  (forall o, In o (concat progs) -> target o = Some q -> o = CWrite q v) ->
+  let st := run ar sched (boot s0 progs) in
+  walk_root (sh st) q = Some (RFile f) -> nth_error (files (sh st)) f = Some fo -> f_holder fo = None ->
+  f_data fo = v.
+Proof. exact sole_writer_value. Qed.
+Print Assumptions C09_distinct_path_value.
+
+(** premises: the empty filespace is [INJ]; a [plain] program set with two writers of one path, a
+    Writer session on another and readers; a reachable state in which both files are bound and
+    unlocked and a reader has returned data *)
+Example C09_ex_values_by_path :
+  INJ empty_shared /\ good_shared empty_shared = true /\
+  (let progs := [[CWrite [nA; nX] [1]; CRead [nA; nY]]; [CWrite [nA; nX] [2]]; [CWriter [nA; nY] [[3];[4]]; CReader [nA; nX]]] in
+   plain progs = true /\
+   let st := run cur (concat (repeat [0;1;2]%nat 16)) (boot empty_shared progs) in
+   final st = true /\
+   lookup (abs (sh st)) [nA; nX] = Some (F [2]) /\ lookup (abs (sh st)) [nA; nY] = Some (F [3;4]) /\
+   results_of st 0 = [(CWrite [nA; nX] [1], QOk); (CRead [nA; nY], QData [3;4])] /\
+   results_of st 2 = [(CWriter [nA; nY] [[3];[4]], QOk); (CReader [nA; nX], QData [2])]).
+Proof. split; [exact INJ_empty|]. vm_compute. repeat split; reflexivity. Qed.
